@@ -27,7 +27,7 @@ ASSUMPTIONS = [
     "'helper tasks gone' = done after the loop has been yielded to at the same virtual instant",
 ]
 BUDGET = {
-    "quick": {"workers": 16, "examples": 4800},
+    "quick": {"workers": 16, "examples": 9600},
     "thorough": {"workers": 16, "examples": 24000},
 }
 
